@@ -1764,10 +1764,13 @@ func (l *lexer) error(pos ast.Pos, msg string) {
 	if l.err != nil && strings.Contains(msg, ": unexpected EOF") {
 		return // lexing was interrupted
 	}
-	l.err = Error{
-		Name: l.name,
-		Pos:  pos,
-		Msg:  msg,
+	if _, ok := l.err.(Error); ok || l.err == nil {
+		// a read error is never replaced
+		l.err = Error{
+			Name: l.name,
+			Pos:  pos,
+			Msg:  msg,
+		}
 	}
 
 	select {
